@@ -44,6 +44,8 @@ inductive Call
   | q                -- no durable effect: SELECT (existence checks, status rows, counts), SET, temp-table DDL
   | w (e : Eff)      -- one durable effect
   | begin | commit | rollback
+  | commitFail       -- a COMMIT that DuckDB rejects (commit-time PRIMARY KEY / UNIQUE conflict with a concurrent
+                     -- transaction): it raises, the transaction is rolled back, nothing becomes durable
 deriving DecidableEq, Repr
 
 inductive Stmt
@@ -58,6 +60,7 @@ inductive Stmt
   | merge (t : Nat) (src : List (Nat × Nat))   -- WHEN MATCHED THEN UPDATE … WHEN NOT MATCHED THEN INSERT …
   | select
   | begin | commit | rollback
+  | commitConflict                             -- COMMIT that fails with a commit-time conflict (raised to the caller)
 deriving DecidableEq, Repr
 
 def optCall {α} (o : Option α) (f : α → Eff) : List Call :=
@@ -81,6 +84,7 @@ def calls : Stmt → List Call
   | .select => [.q]
   | .begin => [.begin]
   | .commit => [.commit]
+  | .commitConflict => [.commitFail]
   | .rollback => [.rollback]         -- (COMMIT/ROLLBACK are only generated inside a transaction: one call each)
 
 /-- the engine: durable log + buffered effects of the open transaction -/
@@ -103,6 +107,7 @@ def Eng.call (e : Eng) : Call → Eng
     | none => e
     | some b => { disk := e.disk ++ b, tx := none }
   | .rollback => { e with tx := none }
+  | .commitFail => { e with tx := none }
 
 def Eng.run (e : Eng) (cs : List Call) : Eng := cs.foldl Eng.call e
 
@@ -125,7 +130,7 @@ def wOf : Call → Option Eff
 def effs (s : Stmt) : List Eff := (calls s).filterMap wOf
 
 def Stmt.isTxCtl : Stmt → Bool
-  | .begin => true | .commit => true | .rollback => true | _ => false
+  | .begin => true | .commit => true | .rollback => true | .commitConflict => true | _ => false
 
 /-! ### observable state computed from the durable log -/
 
@@ -207,12 +212,14 @@ inductive TxUnit
   | auto (s : Stmt)
   | txc (body : List Stmt)
   | txr (body : List Stmt)
+  | txf (body : List Stmt)      -- BEGIN … COMMIT where the COMMIT fails (commit-time conflict)
 deriving DecidableEq, Repr
 
 def TxUnit.stmts : TxUnit → List Stmt
   | .auto s => [s]
   | .txc b => .begin :: b ++ [.commit]
   | .txr b => .begin :: b ++ [.rollback]
+  | .txf b => .begin :: b ++ [.commitConflict]
 
 /-- ATTACH is not transactional in DuckDB: `connect` / CREATE DATABASE are modelled in autocommit only -/
 def Stmt.isAttach : Stmt → Bool
@@ -223,18 +230,21 @@ def TxUnit.ok : TxUnit → Bool
   | .auto s => !s.isTxCtl
   | .txc b => b.all fun s => !s.isTxCtl && !s.isAttach
   | .txr b => b.all fun s => !s.isTxCtl && !s.isAttach
+  | .txf b => b.all fun s => !s.isTxCtl && !s.isAttach
 
 /-- durable effects of a *completed* unit -/
 def TxUnit.eff : TxUnit → List Eff
   | .auto s => effs s
   | .txc b => b.flatMap effs
   | .txr _ => []
+  | .txf _ => []
 
 /-- durable effects of a unit interrupted after `j` of its engine calls (`j` < number of its calls) -/
 def TxUnit.partialEff : TxUnit → Nat → List Eff
   | .auto s, j => ((calls s).take j).filterMap wOf
   | .txc _, _ => []
   | .txr _, _ => []
+  | .txf _, _ => []
 
 def hist (us : List TxUnit) : List Stmt := us.flatMap TxUnit.stmts
 
